@@ -11,6 +11,18 @@ def plan(ctx):
             oid = f"routing.{p['kind']}" + (f".{p['op']}" if p['op'] else "")
             obs.append(Obligation(oid, "xh", "c12", "routing_node", param=p, timeout=T, bounds="opaque sentinel value",
                                   desc="with copy.deepcopy replaced by a tagging stub: what is stored / combined is the tagged copy"))
+    for p in nodes.kind_params():
+        if p["kind"] in ("AssignOp", "ShortOp", "NoOp") or (p["op"] is not None and p["op"] not in ('+', 'and', 'or', 'not')):
+            continue
+        for target in ("assign", "short"):
+            oid = f"rhs.{target}.{p['kind']}" + (f".{p['op']}" if p['op'] else "")
+            try:
+                nodes.build(p["kind"], p["op"], [], [0, 0, 0, 0], 1)
+            except nodes.Uncovered:
+                continue
+            obs.append(Obligation(oid, "xh", "c12", "routing_rhs", param={**p, "target": target}, timeout=T,
+                                  bounds="right-hand side: one real node of this kind with 1..2 stub children returning mutable sentinels",
+                                  desc="whatever the right-hand-side node evaluates to, the tagged deep copy of THAT object is stored / combined"))
     obs.append(Obligation("routing.__setitem__", "xh", "c12", "routing_setitem", param={"fn": "__setitem__"}, timeout=T,
                           bounds="list or dict container (symbolic), key 0..1 as int or str", desc="_set stores deepcopy(value)"))
     for op in ('+=', '-=', '*=', '/='):
